@@ -159,6 +159,35 @@ example : openCommand [120, 32, 34, 97, 32, 98, 34] 5 [([75], [118])] =
     some { file := [120], argv := [[120], [97, 32, 98]], env := some [[75, 61, 118]], pipes := 5 } := by decide
 
 
+/-! ### environment of the own process -/
+
+/-- set / remove / look up: a variable that was set to a non-empty value is read back, a variable
+    that was removed (empty value) yields the default and the removal reports success, other
+    variables are not affected; invalid names (empty, containing `=`) are refused and change nothing -/
+theorem env_set_get (e : PEnv) (k v d : Str) (hk : validName k = true) :
+    (setEnvironmentVariable e k v).2 = true ∧
+    getEnvironmentVariable (setEnvironmentVariable e k v).1 k d = (if v.isEmpty then d else v) ∧
+    (∀ k', k' ≠ k → getEnvironmentVariable (setEnvironmentVariable e k v).1 k' d = getEnvironmentVariable e k' d) := by
+  have hrem := find_envRemove k e
+  unfold setEnvironmentVariable getEnvironmentVariable
+  simp only [hk, Bool.not_true, Bool.false_eq_true, if_false]
+  by_cases hv : v.isEmpty = true
+  · simp only [hv, if_true, hrem, if_true]
+    refine ⟨trivial, trivial, ?_⟩
+    intro k' hk'; simp [hk']
+  · simp only [hv, if_false, Bool.false_eq_true]
+    refine ⟨trivial, by simp, ?_⟩
+    intro k' hk'
+    have : (k == k') = false := by simp; exact fun h => hk' h.symm
+    simp [List.find?, this, hrem, hk']
+
+theorem env_invalid_name (e : PEnv) (k v : Str) (hk : validName k = false) :
+    setEnvironmentVariable e k v = (e, false) := by
+  simp [setEnvironmentVariable, hk]
+
+example : getEnvironmentVariable (setEnvironmentVariable (setEnvironmentVariable [] [65] [49]).1 [65] []).1 [65] [100] = [100] := by
+  decide
+
 /-! ### the Process object: pid and descriptors with 0 = closed -/
 
 /-- after every history of calls on a Process object: when no child is running (pid = 0) no pipe
